@@ -5,7 +5,7 @@
    `self` or the name of a class / module (those are not declarations in the property's list).
    PARTIAL: the parser, the annotated tree, the position -> node step and the rendering of a
    workspace to files are tied to this model by the differential run only (checks/c10.py). *)
-From GoldV Require Import Base SymTab SymTabProofs Scoping ScopingProofs ScopingWitness.
+From GoldV Require Import Base SymTab SymTabProofs Scoping ScopingProofs ScopingWitness ScopingRecase ScopingRecaseWitness.
 
 (* a plain identifier: local variable or parameter (latest declaration), else member of the class,
    else of the nearest ancestor declaring it, else constant / type of a used entity in `uses` order.
@@ -178,6 +178,78 @@ Proof.
   destruct w_fwd_facts as (H1 & H2 & _). rewrite H1, H2. split; [reflexivity|discriminate].
 Qed.
 
+(* ---- re-casing the REFERENCES stored in the workspace (Proofs/ScopingRecase.v) ----
+   ws_sim ws ws': same entities in the same order, every declared name / kind / tag exactly equal;
+   parent classes, `uses` lists and the declared type names of members, parameters and locals
+   equal ignoring ASCII letter case.  No well-formedness hypothesis. *)
+
+(* the symbol tables the annotator builds are the same tables *)
+Theorem C10_workspace_recase_chains :
+  forall ws ws' c d d' m, ws_sim ws ws' -> ci d d' ->
+    class_chain ws d = class_chain ws' d' /\ scope_chain ws c m = scope_chain ws' c m.
+Proof.
+  intros ws ws' c d d' m H Hd. split; [apply class_chain_sim; assumption|].
+  apply scope_chain_sim; [exact H|reflexivity].
+Qed.
+
+(* every definition request resolves to the same targets (entity, tag) *)
+Theorem C10_workspace_recase :
+  forall ws ws', ws_sim ws ws' -> forall c m d d' p mn id, ci d d' ->
+    resolve_plain ws c m id = resolve_plain ws' c m id /\
+    resolve_member ws d id = resolve_member ws' d' id /\
+    definition_member ws c m d id = definition_member ws' c m d' id /\
+    definition_dotted ws c m p id = definition_dotted ws' c m p id /\
+    definition_method_name ws c mn = definition_method_name ws' c mn /\
+    definition_member_name ws c id = definition_member_name ws' c id.
+Proof.
+  intros ws ws' H c m d d' p mn id Hd.
+  split; [apply resolve_plain_sim; exact H|].
+  split; [apply resolve_member_sim; assumption|].
+  split; [apply definition_member_sim; assumption|].
+  split; [apply (dotted_sim ws ws' c m p id H)|].
+  apply (definition_names_sim ws ws' c mn id H).
+Qed.
+
+(* the static class of a dotted operand -- through aliases, refto, listof, fields, functions,
+   calls -- is the same class, spelled as the reference that introduced it *)
+Theorem C10_workspace_recase_static_class :
+  forall ws ws' c m p, ws_sim ws ws' -> osty_sim (static_class ws c m p) (static_class ws' c m p).
+Proof. intros ws ws' c m p H. apply static_class_sim. exact H. Qed.
+
+(* the one exact-spelling comparison of the code on this path (`left type == for_class_or_module`
+   in eval_right_hand_of_entity / resolve_method_call) is immaterial since fix 945552f *)
+Theorem C10_spelling_test_immaterial :
+  forall ws c m left i,
+    next_etype ws c m left i =
+    match find_entity ws (sty_name left) with
+    | Some _ => sym_etype etype_fuel ws None (search_wparent (class_chain_during ws c m (sty_name left)) (item_name i))
+    | None => None
+    end.
+Proof. exact next_etype_normal. Qed.
+
+(* the declarative rule and every answer of the correspondence engine *)
+Theorem C10_workspace_recase_spec :
+  forall ws ws' d d' id, ws_sim ws ws' -> ci d d' -> members_all ws d id = members_all ws' d' id.
+Proof. exact members_all_sim. Qed.
+
+Theorem C10_workspace_recase_answers :
+  forall ws ws' q, ws_sim ws ws' -> answer_query ws q = answer_query ws' q.
+Proof. exact answer_query_sim. Qed.
+
+Example C10_workspace_recase_nonvacuous :
+  ws_sim w_alias w_alias_recased /\ w_alias <> w_alias_recased /\
+  (* x : tRef, tRef : refto aLeaf (alias), Link : tRef inherited: `x.Link.fb` in both spellings *)
+  definition_dotted w_alias r_aLeaf in_go [IId r_x; IId r_Link] r_fb = [(r_aLeaf, 1)] /\
+  definition_dotted w_alias_recased r_aLeaf in_go [IId r_x; IId r_Link] r_fb = [(r_aLeaf, 1)] /\
+  static_class w_alias r_aLeaf in_go [IId r_x; IId r_Link] = Some (SClass r_aLeaf) /\
+  static_class w_alias_recased r_aLeaf in_go [IId r_x; IId r_Link] = Some (SClass r_AlEAF) /\
+  (* the type of a used entity, `uses ALIB` *)
+  resolve_plain w_alias_recased r_aLeaf in_go r_tLib = Some (r_aLib, 1).
+Proof.
+  destruct w_alias_answers as (H1 & H2 & H3 & H4 & _ & _ & _ & H8 & _).
+  split; [exact w_alias_sim|]. split; [exact w_alias_differ|]. auto.
+Qed.
+
 Print Assumptions C10_plain.
 Print Assumptions C10_plain_in_chain.
 Print Assumptions C10_member.
@@ -201,3 +273,10 @@ Print Assumptions C10_plain_refuted_uses.
 Print Assumptions C10_plain_refuted_entity_name.
 Print Assumptions C10_old_member_refuted_local.
 Print Assumptions C10_chain_refuted_forward.
+Print Assumptions C10_workspace_recase_chains.
+Print Assumptions C10_workspace_recase.
+Print Assumptions C10_workspace_recase_static_class.
+Print Assumptions C10_spelling_test_immaterial.
+Print Assumptions C10_workspace_recase_spec.
+Print Assumptions C10_workspace_recase_answers.
+Print Assumptions C10_workspace_recase_nonvacuous.
